@@ -51,3 +51,50 @@ func IsPerfectClass(n uint) bool {
 	s := (n-1)%7 + 1
 	return s == 1 || s == 4 || s == 5
 }
+
+// ParseIntervalNotation reads crd's printed interval notation: accidental marks followed by
+// the number ("3", "b3", "bb7", "bbb4", "#11", "##5"). The marks mean: none = major/perfect,
+// b = minor (diminished for unison/fourth/fifth), bb = diminished, bbb = doubly diminished,
+// # = augmented, ## = doubly augmented.
+func ParseIntervalNotation(s string) (n uint, q int, ok bool) {
+	i := 0
+	for i < len(s) && (s[i] == 'b' || s[i] == '#') {
+		i++
+	}
+	marks := s[:i]
+	if i == len(s) {
+		return 0, 0, false
+	}
+	for ; i < len(s); i++ {
+		if s[i] < '0' || s[i] > '9' {
+			return 0, 0, false
+		}
+		n = n*10 + uint(s[i]-'0')
+	}
+	if n == 0 {
+		return 0, 0, false
+	}
+	switch marks {
+	case "":
+		q = QMajor
+		if IsPerfectClass(n) {
+			q = QPerfect
+		}
+	case "b":
+		q = QMinor
+		if IsPerfectClass(n) {
+			q = QDiminished
+		}
+	case "bb":
+		q = QDiminished
+	case "bbb":
+		q = QDDiminished
+	case "#":
+		q = QAugmented
+	case "##":
+		q = QDAugmented
+	default:
+		return 0, 0, false
+	}
+	return n, q, true
+}
